@@ -226,6 +226,14 @@ def r2_loops(text, ctx, loop_kinds=None):
             if not mm:
                 raise Unsupported('pairs loop pattern ' + pat)
             binds = ['let %s = &%s[%s].0;' % (mm.group(1), seq2, idx), 'let %s = &%s[%s].1;' % (mm.group(2), seq2, idx)]
+        elif ov.get('kind') == 'index':
+            # for PAT in <iter_mut / zip shape>: only the index is bound; the body's derefs are rewritten by explicit substitutions of the unit
+            binds = ['let %s = %s;' % (ov['index'], idx)] if ov.get('index') else []
+            n[0] += 1
+            start = ov.get('start', '0')
+            return ('%slet mut %s: usize = %s;\n%swhile %s < %s\n%s{\n' % (ind, idx, start, ind, idx, ov['limit'], ind)
+                    + ''.join('%s    %s\n' % (ind, b) for b in binds)
+                    + '%s    %s += 1;' % (ind, idx))
         elif ov.get('kind') == 'idpairs':
             # for (&(a, b), v) in &map  over a key-ordered entry list  [((a, b), v)]
             mm = re.fullmatch(r'\(\s*&\(\s*(\w+)\s*,\s*(\w+)\s*\)\s*,\s*(\w+)\s*\)', pat)
